@@ -33,43 +33,38 @@ Theorem C13_key_reference_keyable :
 Proof. exact key_reference_keyable. Qed.
 Print Assumptions C13_key_reference_keyable.
 
-(* The registries after any accepted list: marked ids pairwise distinct and as many as the reference count,
-   every marked id is the id of a marker event of the list, pending forward references are not marked,
-   every reference made so far is marked or pending, and in the terminal state nothing is pending. *)
+(* Marker ids are pairwise distinct in every accepted complete document. *)
+Theorem C13_marker_ids_distinct :
+  forall cfg es, accepts_document cfg es = true -> NoDup (marker_ids es).
+Proof. exact document_markers_distinct. Qed.
+Print Assumptions C13_marker_ids_distinct.
+
+(* Every marker of an accepted complete document is registered: the registered ids are exactly the ids of
+   the marker events, and there are as many registrations as marker events. *)
+Theorem C13_every_marker_registered :
+  forall cfg es c, state_after cfg es = Some c -> e_rule (cur c) = RTerminal ->
+    refcount c = marker_usage es /\ forall id, In (EMarker id) es <-> In id (akeys (marked c)).
+Proof. exact document_markers_all_registered. Qed.
+Print Assumptions C13_every_marker_registered.
+
+(* The registries after any accepted list (also an incomplete one): marked ids pairwise distinct and as many
+   as the reference count, every marked id is the id of a marker event of the list, pending forward references
+   are not marked, every reference made so far is marked or pending, in the terminal state nothing is pending,
+   and registered markers + marker entries still open = marker events (a marker is registered when its object
+   - scalar, array or container, nested markers included - is complete). *)
 Theorem C13_registry_invariants :
   forall cfg es c, state_after cfg es = Some c ->
     NoDup (akeys (marked c)) /\ refcount c = N.of_nat (length (marked c)) /\
     (forall id, In id (akeys (marked c)) -> In (EMarker id) es) /\
     (forall id, In id (akeys (fwd c)) -> alookup id (marked c) = None) /\
     (forall id, In (ERefLocal id) es -> In id (akeys (marked c)) \/ In id (akeys (fwd c))) /\
-    (e_rule (cur c) = RTerminal -> fwd c = []).
+    (e_rule (cur c) = RTerminal -> fwd c = []) /\
+    (Z.of_N (refcount c) + Z.of_nat (count_cl KMarker (e_rule (cur c) :: srules c)) = Z.of_N (marker_usage es))%Z.
 Proof. exact registry_invariants. Qed.
 Print Assumptions C13_registry_invariants.
 
-(* Marker ids are pairwise distinct - the full statement ... *)
-Definition C13_marker_ids_distinct_full : Prop :=
-  forall cfg es, accepts_document cfg es = true -> NoDup (marker_ids es).
-(* ... is violated by the current code (a marker on a chunked string in key position is not registered): *)
-Theorem C13_marker_ids_distinct_refuted :
-  exists es, accepts_document default_rcfg es = true /\ ~ NoDup (marker_ids es).
-Proof. exact marker_ids_distinct_refuted. Qed.
-Print Assumptions C13_marker_ids_distinct_refuted.
-Theorem C13_every_marker_registered_refuted :
-  exists es id, accepts_document default_rcfg es = true /\ In (EMarker id) es /\ marked_type default_rcfg es id = None.
-Proof. exact marker_registered_refuted. Qed.
-Print Assumptions C13_every_marker_registered_refuted.
-(* The proved part: the ids are pairwise distinct whenever every marker got registered (the reference count
-   equals the number of marker events) - which is what fails in the two witnesses above. *)
-Theorem C13_marker_ids_distinct_partial :
-  forall cfg es c, state_after cfg es = Some c -> refcount c = marker_usage es -> NoDup (marker_ids es).
-Proof. exact markers_distinct_if_all_registered. Qed.
-Print Assumptions C13_marker_ids_distinct_partial.
-
-(* Findings: nested markers (a marked container holding another marker) are rejected at the end of the
-   outer container; a reference to a marked float is accepted as a map key although a float key is not. *)
-Theorem C13_nested_markers_rejected : rejected_at default_rcfg nested_marker_witness = Some 6.
-Proof. exact nested_markers_rejected. Qed.
-Print Assumptions C13_nested_markers_rejected.
+(* Open finding: a reference to a marked float is accepted as a map key although a float key is not
+   (the keyable mask contains the float type). *)
 Theorem C13_float_key_reference_accepted :
   accepts_document default_rcfg float_key_witness_backward = true /\
   accepts_document default_rcfg float_key_witness_forward = true /\
@@ -78,6 +73,14 @@ Theorem C13_float_key_reference_accepted :
   accepts default_rcfg [EBeginDoc; EVersion 0; EMap; EFloat 0] = false.
 Proof. exact float_key_reference_accepted. Qed.
 Print Assumptions C13_float_key_reference_accepted.
+
+(* Regression examples for the repaired defects (nested markers; marker on a chunked key). *)
+Theorem C13_repaired_marker_examples :
+  accepts_document default_rcfg nested_marker_example = true /\
+  marked_type default_rcfg nested_marker_example [97] = Some DT_List /\
+  marked_type default_rcfg nested_marker_example [98] = Some DT_Int /\
+  rejected_at default_rcfg chunked_key_marker_example = Some 9.
+Proof. exact repaired_marker_examples. Qed.
 
 (* Non-vacuity: forward and backward references, in key and value position. *)
 Example C13_example_accept :
